@@ -49,10 +49,18 @@ Derive(o, how) ==
         /\ next' = k + 4
   /\ hist' = Append(hist, <<how, o>>)
 
+(* the same file loaded once more: a sample of its own, showing nothing of what happened to the others *)
+Load ==
+  /\ Len(objs) < MaxObjs /\ Len(hist) < MaxOps
+  /\ objs' = Append(objs, Obj(next, next + 1, next + 2, next + 3, next + 4, 0, "load"))
+  /\ cell' = [i \in 1..(next + 4) |-> IF i < next THEN cell[i] ELSE 0]
+  /\ next' = next + 5
+  /\ hist' = Append(hist, <<"load", 1>>)
+
 (* environment writes through references handed out by accessors *)
 Mutate(o, what) ==
   /\ Len(hist) < MaxOps
-  /\ LET id == CASE what = "range" -> objs[o].ri [] what = "text" -> objs[o].tx [] OTHER -> objs[o].buf
+  /\ LET id == CASE what = "range" -> objs[o].ri [] what = "text" -> objs[o].tx [] what = "analysis" -> objs[o].an [] OTHER -> objs[o].buf
      IN cell' = [cell EXCEPT ![id] = @ + 1]
   /\ hist' = Append(hist, <<"mutate_" \o what, o>>)
   /\ UNCHANGED <<objs, next>>
@@ -65,8 +73,9 @@ ReadOnly(o) ==
 
 Next == \E o \in 1..Len(objs) :
            \/ \E how \in DeriveOps : Derive(o, how)
-           \/ \E w \in {"range", "text", "buffer"} : Mutate(o, w)
+           \/ \E w \in {"range", "text", "analysis", "buffer"} : Mutate(o, w)
            \/ ReadOnly(o)
+           \/ Load
 Spec == Init /\ [][Next]_vars
 
 ----------------------------------------------------------------------------
@@ -99,4 +108,8 @@ DupBornEqual ==
         LET n == Len(objs')  s == objs'[n].src IN
         /\ cell'[objs'[n].buf] = cell[objs[s].buf] /\ cell'[objs'[n].ri] = cell[objs[s].ri]
         /\ cell'[objs'[n].tx] = cell[objs[s].tx] /\ cell'[objs'[n].an] = cell[objs[s].an]]_vars
+(* a sample loaded later is pristine whatever was done to the earlier ones *)
+LoadPristine ==
+  [][Len(objs') = Len(objs) + 1 /\ objs'[Len(objs')].how = "load" =>
+        LET n == objs'[Len(objs')] IN \A c \in {n.buf, n.ro, n.ri, n.tx, n.an} : cell'[c] = 0]_vars
 =============================================================================
